@@ -37,6 +37,7 @@ public:
                     Epoch epoch = epoch_management::get_epoch();
                     elem.set_begin_epoch(epoch);
                     std::atomic_thread_fence(std::memory_order_seq_cst);
+                    YAKUSHIMA_VERIF_YIELD(Y_LOAD | Y_CAT_EPOCH, nullptr);
                     if (epoch == epoch_management::get_epoch()) { break; }
                 }
                 token = &(elem);
